@@ -34,6 +34,7 @@ type c06Op struct {
 	sub    string // h: the operation issued while the writer of stream s is parked in a DATA frame: x r c
 	s2     int    // h: its stream index
 	mid    bool   // h: park in the middle of what the writer can send (else after its first octet)
+	pair   *c06Op // oo: the second request
 }
 
 type c06Run struct {
@@ -52,6 +53,7 @@ type c06Run struct {
 	lostWakeups  []string // operations after which a RoundTrip that could go ahead was left asleep
 	exactHits    int      // header / trailer blocks of exactly the targeted length (adaptive scripts)
 	held         int      // operations issued while a writer was parked inside a DATA frame
+	pairs        int      // pairs of requests opened with the delay hook
 	streamOwed   int64    // worst stream-level credit owed on a response that is still being read
 	streamOwedAt uint32
 }
@@ -121,6 +123,33 @@ func c06ExecMode(t testing.TB, cfg c06Cfg, script []c06Op, gen func(e *c06Env, n
 		case "o":
 			tok = e.open(op.a, op.flag, op.b, c06Shape{head: op.head, trailer: op.trlp1 - 1})
 			e.opened[len(e.opened)-1].tokIdx = len(run.tokens)
+		case "oo":
+			// two requests, the second started while the first sits between id allocation and its
+			// HEADERS write: two plain opens for the model
+			if e.pending != nil || op.pair == nil {
+				break
+			}
+			toks, sts := e.openPair(*op, *op.pair)
+			fs := e.take(true)
+			var fa, fb []string
+			for _, f := range strings.Split(fs, ",") {
+				if sts[1].cs != nil && c06StreamOf(f) == int(sts[1].id) && f != "X" && f != "T" && f != "-" {
+					fb = append(fb, f)
+				} else if f != "-" {
+					fa = append(fa, f)
+				}
+			}
+			if len(fb) == 0 {
+				fb = []string{"-"}
+			}
+			if len(fa) == 0 || fa[0] == "X" || fa[0] == "T" {
+				fa = append([]string{"-"}, fa...)
+			}
+			sts[0].tokIdx, sts[1].tokIdx = len(run.tokens), len(run.tokens)+1
+			run.tokens = append(run.tokens, toks[0], toks[1])
+			run.transcript = append(run.transcript, strings.Join(fa, ","), strings.Join(fb, ","))
+			run.pairs++
+			continue
 		case "oc":
 			tok = e.openCancel(op.a, op.flag, op.b, c06Shape{head: op.head, trailer: op.trlp1 - 1}, op.cut)
 			e.opened[len(e.opened)-1].tokIdx = len(run.tokens)
@@ -356,6 +385,9 @@ func c06Judge(s *verifh.Session, runs []*c06Run) {
 		}
 		for k := 0; k < r.held; k++ {
 			s.Count("held-op")
+		}
+		for k := 0; k < r.pairs; k++ {
+			s.Count("open-pair")
 		}
 		if !creditOK {
 			s.Count("credit-owed")
@@ -719,6 +751,27 @@ func c06Directed() []c06Script {
 			// several later requests still get through a peer that enforces its windows
 			open(0, true, 0), ph(8, false), pd(8, 16384, 0, false), pd(8, 16384, 0, true), rd(8, 100000), ping)
 	}
+	// 24. a request queued for a MAX_CONCURRENT_STREAMS slot while the peer changes its SETTINGS:
+	//     what the stream is opened with (send window, frame size, scratch buffer) is what is in
+	//     force when it gets its slot, not when it was queued (forced and unforced wake-ups)
+	for _, nw := range []bool{false, true} {
+		f := add
+		name := "queued-settings"
+		if nw {
+			f, name = addNoWake, "queued-settings-nowake"
+		}
+		f(name, strict, S(c06Set(xhttp2.SettingMaxConcurrentStreams, 1), c06Set(xhttp2.SettingInitialWindowSize, 65535)), wu(-1, 1<<20),
+			open(0, true, 0), open(100000, true, 0), S(c06Set(xhttp2.SettingInitialWindowSize, 1000)), ph(0, true), feed(1), feed(1), wu(1, 100000), feed(1), c06Op{kind: "pr", s: 1, b: 8},
+			open(0, true, 0), open(100000, false, 0), S(c06Set(xhttp2.SettingInitialWindowSize, 200000), c06Set(xhttp2.SettingMaxFrameSize, 65536)), S(c06Set(xhttp2.SettingMaxFrameSize, 32768)), ph(2, true), feed(3), feed(3), c06Op{kind: "pr", s: 3, b: 8},
+			open(0, true, 0), open(50000, true, 40000), S(c06Set(xhttp2.SettingInitialWindowSize, 0), c06Set(xhttp2.SettingMaxFrameSize, 16384)), S(c06Set(xhttp2.SettingInitialWindowSize, 5)), ph(4, true), feed(5), feed(5), ping)
+	}
+	// 25. two requests, the second started while the first sits between stream id allocation and
+	//     its HEADERS write: ids reach the wire in order, each block in one piece
+	pair := func(a, b c06Op) c06Op { a.kind = "oo"; a.pair = &b; return a }
+	for _, c := range []c06Cfg{def, firefox} {
+		add("open-pair-"+c.name, c, S(), pair(open(0, true, 0), open(0, true, 0)), pair(open(100, true, 40000), open(0, true, 20000)), pair(open(0, true, 0), openHead()),
+			pair(openTrl(10, true, 5), open(0, false, 0)), ph(0, true), ph(1, true), pair(open(0, true, 33000), open(0, true, 0)), ping)
+	}
 	// 21. header blocks and trailer blocks of exactly k frames (END_HEADERS on a full frame)
 	for _, c := range []c06Cfg{def, chrome} {
 		out = append(out, c06Script{cfg: c, name: "exact-header-blocks-" + c.name, gen: c06ExactBlocks(c)})
@@ -938,6 +991,11 @@ func c06Gen(r *rand.Rand, maxOps int) func(e *c06Env, n int) *c06Op {
 					op.a, op.flag, op.head = 0, true, true // HEAD
 				case 1, 2:
 					op.trlp1 = 1 + verifh.Pick(r, []int{0, 5, 100, 16300, 16384, 20000, 40000}) // declared trailers (also without a body)
+				}
+				if r.Intn(8) == 0 && len(e.order) < 5 && !(e.cfg.strict && int64(e.liveCount())+1 >= e.slotLimit()) {
+					second := c06Op{kind: "o", a: verifh.Pick(r, c06Sizes), flag: r.Intn(4) != 0, b: r.Intn(200)}
+					op.kind, op.pair = "oo", &second
+					return op
 				}
 				if pad >= 16300 && r.Intn(2) == 0 && !(e.cfg.strict && int64(e.liveCount()) >= e.slotLimit()) {
 					// cancelled while the header block is being written: after 1 octet, around the frame
